@@ -7,7 +7,7 @@ import zlib
 from . import core
 
 
-WARM_OPS = {"2": "svcrtejkJK", "3": "svcnrtejkJK", "4": "svcnrjkJK"}
+WARM_OPS = {"2": "svcrtejkJKw", "3": "svcnrtejkJKw", "4": "svcnrjkJKw"}
 
 
 def warm_calls(s):
@@ -61,7 +61,7 @@ def observe(ver, o, what="svcnrte"):
 
 NAMES = {"s": "scores", "v": "severities", "c": "clean_vector", "n": "clean_vector(output_prefix=False)",
          "r": "rh_vector", "t": "temporal_vector", "e": "environmental_vector", "j": "as_json()",
-         "k": "as_json(minimal=True)", "J": "as_json(sort=True)", "K": "as_json(sort=True,minimal=True)"}
+         "k": "as_json(minimal=True)", "J": "as_json(sort=True)", "K": "as_json(sort=True,minimal=True)", "w": "compute_*() again"}
 
 
 def parse_fields(ver, s):
